@@ -10,13 +10,15 @@ BASE = ("Trusted: Lean 4.33 kernel + Mathlib v4.33; axioms propext/Classical.cho
         "correspondence harness that ties it to /repo's working tree through the public API on every run (differential testing, not proof); "
         "IEEE-754 rounding, numpy/scipy/pandas/rustworkx internals are modelled as parameters, not verified (DESIGN.md section 4).")
 checks, na = [], []
+# properties the coordinator has verified end to end (seeds 0,1,2 clean on the unchanged tree, files committed)
+READY = set(open(os.path.join(VERIF, "tools", "ready.txt")).read().split())
 for p in props:
     pid = p["id"]
     try:
         m = importlib.import_module("harness.props.%s" % pid.lower())
     except Exception as e:  # noqa
         m = None
-    if m is None or not getattr(m, "CLAIM", False):
+    if m is None or not getattr(m, "CLAIM", False) or pid not in READY:
         na.append({"property_id": pid, "reason": getattr(m, "NA_REASON", None) or
                    "check still under construction in this framework (DESIGN.md section 11); nothing is claimed for it yet"})
         continue
